@@ -24,7 +24,9 @@ const REAL_TEXTS: &[&str] = &["1.5", "-0.0", "1e5", "inf", "-inf", "NaN", ".5", 
 const WORD_TEXTS: &[&str] = &["a", "abc", "Zed", "x", "true", "false", "NULL", "\u{e5}ngstr\u{f6}m", "Jan"];
 const ANY_TEXTS: &[&str] = &["", " ", "  padded  ", "\tx\t", "plain text", "a\rb", "\r7", "cr at end\r", "x\u{85}y", "x\u{2028}y", "form\u{c}feed", "v\u{b}t", "\u{a0}nbsp\u{a0}", "42", "1:02:03", "2021-03-04 05:06:07", "2021-3-4 5:6:7", " 2021-03-04 05:06:07", "2021-13-04 05:06:07", "2021-02-30 00:00:00", "2021-03-04 24:00:00", "2021-03-04 05:06:60", "100:00:00", "1:2", "a:b:c", "-1:00:00", "2562047788016:00:00", "9223372036854775807:0:0", "0:9223372036854775807:0", "0:307445734561825861:0", "1:153722867280912931:5", "0:0:9223372036854775807", "true", "\u{1F600}"];
 const YEARS: &[&str] = &["2021", "1970", "0", "-1", "99999", "4294969317", "9999", "262143", "300000", "x"];
-const MONTHS_T: &[&str] = &["1", "12", "13", "0", "Jan", "sept", "June", "JUL", "foo", "4294967297", "-1", "02"];
+const MONTHS_T: &[&str] = &["1", "12", "13", "0", "Jan", "sept", "June", "JUL", "foo", "4294967297", "-1", "02",
+    // every month name the engine knows, in some letter case
+    "jan", "Feb", "MAR", "apr", "May", "jun", "Jul", "AUG", "sep", "Oct", "nov", "DEC", "july", "SEPT", "june", "octo", "mai"];
 const DAYS: &[&str] = &["1", "31", "0", "32", "29", "30", "4294967297", "07"];
 const HOURS: &[&str] = &["0", "23", "24", "4294967296", "7"];
 const MINUTES: &[&str] = &["0", "59", "60", "4294967296", "30"];
